@@ -1575,6 +1575,35 @@ func (p *bprover) prove(goal dfact, b *ssa.BasicBlock, extra *factSet, depth int
 			return true
 		}
 	}
+	// idx := shortestIndex(sets); sets[idx]: a helper that hands back 0 or a position it visited in its argument returns a
+	// valid index wherever the argument is known non-empty (the function-level form of the best-so-far lemma)
+	if goal.c >= -1 && strings.HasPrefix(goal.b, "len:") {
+		if call, ok := p.vals[goal.a].(*ssa.Call); ok && !call.Call.IsInvoke() {
+			if cf := call.Call.StaticCallee(); cf != nil && firstParty(cf) && cf.Blocks != nil {
+				for j, arg := range call.Call.Args {
+					if _, isSl := arg.Type().Underlying().(*types.Slice); !isSl || j >= len(cf.Params) {
+						continue
+					}
+					if l := p.lenOf(arg); l.n != goal.b || l.k != 0 {
+						continue
+					}
+					if !p.c.resultZeroOrIndex(cf, j) {
+						continue
+					}
+					key := fmt.Sprintf("zoi|%d|%s", b.Index, goal)
+					if p.stack[key] {
+						continue
+					}
+					p.stack[key] = true
+					ok := p.prove(dfact{"0", goal.b, -1}, b, extra, depth-1)
+					delete(p.stack, key)
+					if ok {
+						return true
+					}
+				}
+			}
+		}
+	}
 	// a term that is the result of a selector (maxInt(a, 0), atMost(v, high)): the goal holds if it holds for each of the
 	// values the helper can hand back
 	for _, side := range []string{goal.a, goal.b} {
@@ -2377,6 +2406,47 @@ func (c *C) callSitePre(fn *ssa.Function) []dfact {
 	}
 	var out []dfact
 	if len(sites) > 0 && !addrTaken {
+		// two slice parameters that every caller fills with slices of one length (ids, conns := subscribers(); broadcast(ids,
+		// conns, ..)): the two results of a helper that appends to both in lock step, or lengths the caller can prove equal
+		for i, pi := range fn.Params {
+			if _, ok := pi.Type().Underlying().(*types.Slice); !ok {
+				continue
+			}
+			for j, pj := range fn.Params {
+				if j <= i {
+					continue
+				}
+				if _, ok := pj.Type().Underlying().(*types.Slice); !ok {
+					continue
+				}
+				same := true
+				for _, call := range sites {
+					if j >= len(call.Call.Args) {
+						same = false
+						break
+					}
+					a, b := call.Call.Args[i], call.Call.Args[j]
+					ea, okA := a.(*ssa.Extract)
+					eb, okB := b.(*ssa.Extract)
+					if okA && okB && ea.Tuple == eb.Tuple {
+						if hc, ok := ea.Tuple.(*ssa.Call); ok {
+							if cf := hc.Call.StaticCallee(); cf != nil && cf.Blocks != nil && lockstepResults(cf, ea.Index, eb.Index) {
+								continue
+							}
+						}
+					}
+					pc := c.newProver(call.Parent())
+					if !(pc.ProveLE(pc.lenOf(a), pc.lenOf(b), 0, call) && pc.ProveLE(pc.lenOf(b), pc.lenOf(a), 0, call)) {
+						same = false
+						break
+					}
+				}
+				if same {
+					la, lb := lenNode(pi), lenNode(pj)
+					out = append(out, dfact{la, lb, 0}, dfact{lb, la, 0})
+				}
+			}
+		}
 		for i, prm := range fn.Params {
 			if isSignedInt(prm.Type()) {
 				all := true
@@ -4149,6 +4219,89 @@ func (c *C) lenBoundWhen(fn *ssa.Function, j int, bound int64, want bool, atLeas
 				}
 			} else if !pr.ProveLEx(ln, lt{"0", 0}, bound, ret, assume) {
 				res = false
+			}
+		}
+	}
+	if res && any {
+		c.rgpMemo[key] = 1
+		return true
+	}
+	c.rgpMemo[key] = 2
+	return false
+}
+
+// resultZeroOrIndex: the single integer result of fn is, on every return, the constant 0 or a value that was below
+// len(parameter j) where it was chosen (a loop index over that parameter).
+func (c *C) resultZeroOrIndex(fn *ssa.Function, j int) bool {
+	if fn == nil || fn.Blocks == nil || calleeProofDepth >= 2 || fn.Signature.Results().Len() != 1 || j >= len(fn.Params) {
+		return false
+	}
+	if c.rgpMemo == nil {
+		c.rgpMemo = map[string]int{}
+	}
+	key := fmt.Sprintf("%s|zoi%d", fn.String(), j)
+	switch c.rgpMemo[key] {
+	case 1:
+		return true
+	case 2, 3:
+		return false
+	}
+	c.rgpMemo[key] = 3
+	calleeProofDepth++
+	defer func() { calleeProofDepth-- }()
+	pr := c.newProver(fn)
+	ln := pr.lenOf(fn.Params[j])
+	res, any := true, false
+	seen := map[ssa.Value]bool{}
+	var leaf func(v ssa.Value, at ssa.Instruction)
+	leaf = func(v ssa.Value, at ssa.Instruction) {
+		if !res {
+			return
+		}
+		if k, ok := constInt(v); ok {
+			if k != 0 {
+				res = false
+			}
+			any = true
+			return
+		}
+		if phi, ok := v.(*ssa.Phi); ok {
+			if seen[phi] {
+				return
+			}
+			seen[phi] = true
+			for i, e := range phi.Edges {
+				pred := phi.Block().Preds[i]
+				if e == ssa.Value(phi) {
+					continue
+				}
+				// a position chosen on this edge: below the length at the end of the block it comes from
+				if _, isPhi := e.(*ssa.Phi); !isPhi {
+					if _, isK := constInt(e); !isK {
+						any = true
+						if !pr.ProveLE(pr.lin(e), ln, -1, pred.Instrs[len(pred.Instrs)-1]) {
+							res = false
+						}
+						continue
+					}
+				}
+				leaf(e, pred.Instrs[len(pred.Instrs)-1])
+			}
+			return
+		}
+		any = true
+		if !pr.ProveLE(pr.lin(v), ln, -1, at) {
+			res = false
+		}
+	}
+	for _, b := range fn.Blocks {
+		if ret, ok := b.Instrs[len(b.Instrs)-1].(*ssa.Return); ok {
+			for _, v := range retResults(ret)[0] {
+				if !isIntType(v.Type()) {
+					res = false
+					continue
+				}
+				leaf(v, ret)
 			}
 		}
 	}
